@@ -272,7 +272,8 @@ def all_with_package(v, base, tool, standin):
         (d / "ws" / m / "src" / "lib.rs").write_text("fn  k( ){}\n")
     (d / "ws" / "Cargo.toml").write_text('[workspace]\nmembers = ["m1", "m2"]\nresolver = "2"\n')
     n = 0
-    for flags in (["--all", "-p", "m2"], ["-p", "m2", "--all"]):
+    for flags in (["--all", "-p", "m2"], ["-p", "m2", "--all"], ["-p", "m2", "-p", "m2"],
+                  ["-p", "m2", "m1", "m2"]):
         for cwd in ("ws/m1", "ws"):
             lg = d / "log.ndjson"
             if lg.exists():
@@ -288,7 +289,10 @@ def all_with_package(v, base, tool, standin):
                 if "--edition" in a:
                     seen |= {str(Path(x).resolve().relative_to(d)) for x in a[:a.index("--edition")]}
             both = {"ws/m1/src/lib.rs", "ws/m2/src/lib.rs"}
-            if seen not in (both, {"ws/m2/src/lib.rs"}) or r.returncode != 0:
+            # (a package named twice is still one package)
+            allowed = (both,) if "m1" in flags else (both, {"ws/m2/src/lib.rs"}) if "--all" in flags \
+                else ({"ws/m2/src/lib.rs"},)
+            if seen not in allowed or r.returncode != 0:
                 v.violation(f"allp:{' '.join(flags)}:{cwd}",
                             f"cargo fmt {' '.join(flags)} in {cwd}: formatted {sorted(seen)} (exit "
                             f"{r.returncode}); expected every member, or at least the named one",
